@@ -25,6 +25,9 @@ def merge(a, b):
 
 def classify_stderr(text, rc):
     """kind of an abnormal termination, from the worker's stderr."""
+    m = re.search(r"VH-VIOLATION-KIND: ([\w:-]+)", text)
+    if m:
+        return m.group(1)
     if "ERROR: AddressSanitizer" in text or "ERROR: LeakSanitizer" in text:
         m = re.search(r"ERROR: (?:Address|Leak)Sanitizer:? ([\w-]+)", text)
         return "asan:" + (m.group(1) if m else "report")
